@@ -67,7 +67,6 @@ pub fn verif_elapsed_to_timeout<T>(r: Result<T, Elapsed>) -> (o: Result<T, ZmqEr
 // R8: `batch.into_iter().collect()` into a VecDeque: the frames in index order
 #[verifier::external_body]
 pub fn verif_collect_deque(batch: FrameBatch) -> (r: VecDeque<Msg>) ensures r@ == batch@ { unimplemented!() }
-impl Duration { #[verifier::external_body] pub fn is_zero(&self) -> (r: bool) ensures r == (self.ns() == 0) { unimplemented!() } }
 
 pub struct AnonymousIngressEngine {
   pub queue: ReadyPipeQueue,
